@@ -120,6 +120,13 @@ TChan ==
        /\ opened' = IF e.res = "ok" THEN opened \cup {e.got} ELSE opened
        /\ UNCHANGED <<neg, wire>>
 
+\* the application closed a channel: its id is free again
+TChanClosed ==
+    /\ IsEv("chanclosed")
+    /\ opened' = opened \ {Rec[l].id}
+    /\ Step(<<>>)
+    /\ UNCHANGED <<neg, wire>>
+
 \* records that carry no C15 obligation
 TOther ==
     /\ \/ IsEv("s2c") \/ IsEv("pub") \/ IsEv("content") \/ IsEv("barrier") \/ IsEv("puberr")
@@ -138,7 +145,7 @@ TAbort == /\ IsEv("abort")
 TSkip == Skipping /\ Skip /\ UNCHANGED <<neg, wire, opened>>
 
 Next == IF Skipping THEN TSkip
-        ELSE (TReset \/ TNegs \/ TC2S \/ TChan \/ TOther \/ TPanic \/ TAbort)
+        ELSE (TReset \/ TNegs \/ TC2S \/ TChan \/ TChanClosed \/ TOther \/ TPanic \/ TAbort)
 
 Spec == Init /\ [][Next]_vars
 =============================================================================
